@@ -175,9 +175,13 @@ custom("kernel_generator", "src/core_codemods/use_generator.py", _KPROPS, "gener
 custom("kernel_set_literal", "src/core_codemods/use_set_literal.py", _KPROPS, "set_literal_recognised", "bool", "true",
        _known("kernel_set_literal", "UseSetLiteral", ["leave_Call"], []),
        doc="UseSetLiteral.leave_Call")
-custom("kernel_hasattr", "src/core_codemods/fix_hasattr_call.py", _KPROPS, "hasattr_recognised", "bool", "true",
-       _known("kernel_hasattr", "TransformFixHasattrCall", ["on_result_found"], ["detector_pattern"]),
-       doc="TransformFixHasattrCall.on_result_found + the semgrep detector pattern")
+def _hasattr_fn(tree, repo):
+    v = _variant("kernel_hasattr", tree, "TransformFixHasattrCall", ["on_result_found"], ["detector_pattern"])
+    return {"Pinned": "pinned_hasattr", "Repaired": "repaired_hasattr"}[v]
+
+
+custom("kernel_hasattr", "src/core_codemods/fix_hasattr_call.py", _KPROPS, "hasattr_cfg_v", "hasattr_cfg", "repaired_hasattr", _hasattr_fn,
+       doc="TransformFixHasattrCall.on_result_found (any number of arguments / exactly two) + the semgrep detector pattern")
 
 
 # ---- fix_empty_sequence_comparison / literal_or_new_object_identity ------------------------------------
